@@ -20,7 +20,7 @@ m = {"version": 1, "setup_cmd": "bin/setup.sh",
                "baseline_off_cmd": "cd /repo && /venv/bin/python -m pytest -ra -q -p no:cacheprovider --timeout=900 --continue-on-collection-errors",
                "source_commits": SOURCE_COMMITS, "add_only": True},
      "engines": [{"name": "pyvc", "path": "pyvc/", "serves_properties": sorted(CHECKS),
-                  "kind_free_text": "verification-condition generator: symbolic interpreter over the real AST of /repo/src/physt, sidecar contracts (/verif/contracts), z3 back end, counterexample replay on the real code"}],
+                  "kind_free_text": "verification-condition generator: symbolic interpreter over the real AST of /repo/src/physt, sidecar contracts (/verif/contracts), loops of symbolic length cut at sidecar invariants, inductive lemmas proved per run; z3 back end (cvc5 second opinion on lemma obligations and Lean on one assumed lemma in the thorough tier), counterexample replay on the real code"}],
      "checks": checks,
      "notes": "Contract-based deductive verification (self-generated VCs, z3). See DESIGN.md. Exit codes: 0 held / 1 violation / 3 checker fault.",
      "not_applicable": na}
